@@ -342,10 +342,14 @@ def storeNew (s : St) (files kept : List String) : St :=
     disk := [DFile.txt pn 0, .txt pn 2, .txt pn 1] ++ (files ++ kept).map (DFile.acc pn) ++ s.disk,
     txt := (pn, files) :: s.txt }
 
+def isAccOf (pd : Nat) : DFile → Bool
+  | .acc p _ => p == pd
+  | _ => false
+
 /-- `os.rmdir(load/pd/accepted)`, `os.rmdir(load/pd)` -/
 def rmdirs (pd : Nat) (disk : List DFile) (dirs : List DDir) : List DDir × Option Err :=
   if DDir.accepted pd ∉ dirs then (dirs, some .nofile)
-  else if disk.any (fun f => match f with | .acc p _ => p == pd | _ => false) then (dirs, some .notempty)
+  else if disk.any (isAccOf pd) then (dirs, some .notempty)
   else
     let dirs1 := dirs.filter (· ≠ .accepted pd)
     if DDir.path pd ∉ dirs1 then (dirs1, some .nofile)
